@@ -626,11 +626,19 @@ func c02Await(st *c02State, ci int, done chan struct{}) bool {
 			idle = 0
 			continue
 		}
+		// the more waits of this run already proved stuck, the less patience (a tree in which
+		// hundreds of cases hang must not take hours): 10 s, then 3 s, then 1 s without progress
+		limit, short := 200, 40
+		if h := c02HangsSoFar(); h >= 20 {
+			limit, short = 20, 10
+		} else if h >= 5 {
+			limit, short = 60, 20
+		}
 		if p := progress(); p != last {
 			last, idle = p, 0
-		} else if idle++; idle >= 200 {
+		} else if idle++; idle >= limit {
 			return false
-		} else if idle >= 40 {
+		} else if idle >= short {
 			// the hooks saw this cascade post its finished message and nothing has moved for
 			// 2 s: the notification did not reach the waiter
 			st.mu.Lock()
@@ -645,7 +653,25 @@ func c02Await(st *c02State, ci int, done chan struct{}) bool {
 
 // c02Stuck ends the process when a wait did not return (a blocked AddEventAndWait cannot be
 // cancelled; the parent records CRASH with this line and restarts): where the goroutines are.
+// c02HangsSoFar: number of stuck waits recorded by the harness processes of this run (file in the
+// working directory shared by all shards; read once per process).
+var c02HangsOnce sync.Once
+var c02Hangs int
+
+func c02HangsSoFar() int {
+	c02HangsOnce.Do(func() {
+		if b, err := os.ReadFile("c02.hangs"); err == nil {
+			c02Hangs = strings.Count(string(b), "\n")
+		}
+	})
+	return c02Hangs
+}
+
 func c02Stuck(result string) {
+	if f, err := os.OpenFile("c02.hangs", os.O_CREATE|os.O_WRONLY|os.O_APPEND, 0644); err == nil {
+		fmt.Fprintln(f, "hang")
+		f.Close()
+	}
 	buf := make([]byte, 1<<20)
 	buf = buf[:runtime.Stack(buf, true)]
 	cnt := map[string]int{}
